@@ -17,7 +17,9 @@ LEAN_MODULES = ["CoapVerif.Props.C03"]
 NAMESPACE = "Coap.C03"
 REQUIRED_THEOREMS = ["parse_eq_spec", "optLenTable_matches_rfc", "reserved_nibble_rejected",
                      "number_above_65535_rejected", "truncated_value_rejected", "marker_without_payload_rejected",
-                     "nonempty_empty_rejected", "every_wellformed_accepted", "accessors_report_wire", "parse_never_oob"]
+                     "nonempty_empty_rejected", "every_wellformed_accepted", "accessors_report_wire", "parse_never_oob",
+                     "filter_op_refines", "filter_run_refines", "filtered_iteration_is_filter", "filtered_accessors_report_wire",
+                     "check_option_is_first", "bset_laws"]
 RULE = ("byte strings for udp/tcp/ws framing: valid encodings from an independent generator (token/option/payload "
         "length classes on both sides of 12/13, 268/269, 65804), 1-3 field-level mutations of them (nibbles, extension "
         "bytes, TKL, length prefix, marker, truncation), blind random bytes, the fixed corpus; non-trivial = distinct "
@@ -71,11 +73,59 @@ def generate(ctx, escalate=False):
                 for _ in range(rng.choice([1, 1, 1, 2, 3])):
                     b = G.mutate(rng, b)
         out.append("parse %s %s" % (wire, hx(b)))
+    out += gen_optit(ctx, n // 6)
+    return out
+
+
+def gen_optit(ctx, n):
+    """option filter scripts + filtered iteration + coap_check_option over accepted datagrams (udp: I vs M vs S) and over
+    arbitrary option regions in an exact-size PDU buffer (raw: I vs M under ASan)"""
+    rng = ctx.rng
+    out = []
+    for i in range(n):
+        m = G.gen_msg(rng, big=False, valid_len=rng.random() < 0.85)
+        nums = [o[0] for o in m[4]] if len(m) > 4 else []
+        pool = nums + [0, 1, 255, 256, 257, 65535, 65534, 300, 2048] + [rng.randrange(0, 65536) for _ in range(3)]
+        short = [x for x in pool if x < 256] + [rng.randrange(0, 256) for _ in range(8)]
+        long_ = [x for x in pool if x > 255] + [rng.randrange(256, 65536) for _ in range(4)]
+        sc = []
+        k = rng.choice([0, 1, 1, 2, 3, 5, 8, 12, 20, 30])
+        mode = rng.random()
+        for _ in range(k):
+            c = rng.random()
+            src = short if mode < 0.45 else long_ if mode < 0.6 else pool      # fill one class beyond its capacity / mix
+            prev = [t[1:] for t in sc if t != "c"]
+            x = rng.choice(prev) if prev and c > 0.8 or prev and rng.random() < 0.3 else str(rng.choice(src))
+            sc.append(("s" if c < 0.55 else "u" if c < 0.75 else "g" if c < 0.97 else "c") + (x if c < 0.97 else ""))
+        script = ",".join(sc) if sc else "-"
+        if rng.random() < 0.6:
+            b = G.encode("udp", *m)
+            if rng.random() < 0.25:
+                b = G.mutate(rng, b)
+            out.append("optit udp %s %s" % (hx(b), script))
+        else:
+            b = G.encode("udp", m[0], m[1], m[2], b"", m[4], m[5])[4:]
+            c = rng.random()
+            if c < 0.5:
+                for _ in range(rng.choice([1, 1, 2, 3])):
+                    b = G.mutate(rng, b)
+            elif c < 0.6:
+                b = G.rbytes(rng, rng.choice([0, 1, 2, 3, 5, 8, 13]))
+            elif c < 0.7 and len(b) > 1:
+                b = b[:rng.randrange(len(b))]
+            out.append("optit raw %s %s" % (hx(b), script))
     return out
 
 
 def judge(ctx, c):
     i, m, s = c["impl"], c["model"], c["spec"]
+    if c["input"].startswith("optit"):
+        import re
+        if s != "na" and re.sub(r" mask=\d+", "", i or "") != s:
+            return ("spec", "filtered option access: implementation %s but the bounded-set / reference-decoding answer is %s" % (short(i), short(s)))
+        if i != m:
+            return ("tie", "filtered option access: implementation %s but model M says %s" % (short(i), short(m)))
+        return None
     if i != s:
         return ("spec", "implementation %s but the reference decoding is %s" % (short(i), short(s)))
     if i != m:
@@ -88,10 +138,15 @@ def short(s):
 
 
 def nontrivial(c):
+    if c["input"].startswith("optit"):
+        return (c["impl"] or "").startswith("r=") and "it=- " not in (c["impl"] or "")
     return (c["spec"] or "").startswith("ok") or (c["impl"] or "").startswith("ok")
 
 
 def classify(c):
+    if c["input"].startswith("optit"):
+        i = c["impl"] or ""
+        return "optit-" + c["input"].split()[1] + ":" + ("rej" if i == "rej" else "refused-set" if "0" in i.split(" ")[0].replace("g", "") and "s" in c["input"] else "ok")
     p = c["input"].split()[1]
     return p + ":" + ("accept" if (c["spec"] or "").startswith("ok") else "reject")
 
@@ -101,6 +156,12 @@ def search(ctx, tie_breaks, proof):
     rng = ctx.rng
     out = []
     for c in tie_breaks[:50]:
+        if c["input"].startswith("optit"):
+            _, mode, h, sc = c["input"].split()
+            b = bytes.fromhex(h) if h != "-" else b""
+            for _ in range(100):
+                out.append("optit %s %s %s" % (mode, hx(G.mutate(rng, b)), sc))
+            continue
         _, proto, h = c["input"].split()
         b = bytes.fromhex(h) if h != "-" else b""
         for _ in range(200):
@@ -139,6 +200,8 @@ def table_witnesses():
 
 def shrink(ctx, case):
     """greedy byte deletion while the implementation still contradicts the specification"""
+    if case["input"].startswith("optit"):
+        return case
     _, proto, h = case["input"].split()
     b = bytes.fromhex(h) if h != "-" else b""
     from vlib.runner import diff_side
